@@ -167,8 +167,9 @@ def wrapper_random(run, prop, classes, n, all_rejects):
 
 def handoff_race(run, prop, classes, all_rejects):
     """Real-time schedules the bubble cannot run: a waiter gives up while unblock() holds the limiter mutex mid hand-off."""
-    out, _ = run.go("^(TestHandoffGiveUpRace|TestUnblockRace|TestArrivalRace|TestReleaseOrder)$", env={"VERIF_N": 6 if run.tier == "thorough" else 2}, timeout=600)
-    for fname, label in (("handoff_trace.ndjson", "handoff-race"), ("unblock_trace.ndjson", "unblock-race"), ("arrival_trace.ndjson", "arrival-race"), ("release_trace.ndjson", "release-order")):
+    out, _ = run.go("^(TestHandoffGiveUpRace|TestUnblockRace|TestArrivalRace|TestReleaseOrder|TestReleaseArrival)$", env={"VERIF_N": 6 if run.tier == "thorough" else 2}, timeout=600)
+    for fname, label in (("handoff_trace.ndjson", "handoff-race"), ("unblock_trace.ndjson", "unblock-race"), ("arrival_trace.ndjson", "arrival-race"), ("release_trace.ndjson", "release-order"),
+                         ("relarrival_trace.ndjson", "release-arrival")):
         tp = os.path.join(out, fname)
         rejects, total = validate_sharded(run, "WrapperTrace", "Wrapper_trace.cfg", tp)
         run.events += total
@@ -230,6 +231,11 @@ def wrapper_pipeline(run, prop, names, negs, classes, random_n=0, extra_invs=Non
     os.makedirs(indir, exist_ok=True)
     kinds = set()
     th = run.tier == "thorough"
+    all_rejects = []
+    if handoff:
+        # the real-time scenarios come first: their waits are bounded, so a change that makes a caller hang is judged here
+        # before it can stall a replay on the virtual clock
+        handoff_race(run, prop, classes, all_rejects)
     for name in names:
         module, consts = configs.WRAPPER[name]
         text = configs.cfg_text(consts, configs.invs(module) + (extra_invs or {}).get(name, []), configs.props_of(module), emit=True)
@@ -251,7 +257,6 @@ def wrapper_pipeline(run, prop, names, negs, classes, random_n=0, extra_invs=Non
         r = run.neg(module, "neg_" + name + ".cfg", cfg_text=text, label="neg:%s" % name)
     if temporal or serve:
         wrapper_liveness(run, names, negs, temporal, serve)
-    all_rejects = []
     for prefix in sorted(kinds):
         test = "^TestBlockingReplay$" if prefix == "blocking" else "^TestQueueReplay$"
         out, _ = run.go(test, env={"VERIF_IN": indir}, timeout=1500)
@@ -279,8 +284,6 @@ def wrapper_pipeline(run, prop, names, negs, classes, random_n=0, extra_invs=Non
             raise Machinery("dead driver: only %d of %d replayed steps followed the model for %s" % (conf, steps, prefix))
     if random_n:
         wrapper_random(run, prop, classes, random_n, all_rejects)
-    if handoff:
-        handoff_race(run, prop, classes, all_rejects)
     other = {}
     for rj in all_rejects:
         if rj["class"] not in classes:
@@ -322,7 +325,7 @@ def c12(run):
 def c13(run):
     th = run.tier == "thorough"
     names = ["b2c", "d2", "q2", "q3s", "d3"] + (["b3p", "d3f", "q3", "q4t", "b3"] if th else [])
-    wrapper_pipeline(run, "C13", names, ["d3-asdelivered-deadline"], {"bound", "early"}, random_n=3000 if th else 500,
+    wrapper_pipeline(run, "C13", names, ["d3-asdelivered-deadline"], {"bound", "early"}, random_n=3000 if th else 500, handoff=True,
                      temporal=("CancelWakes", "DeadlineWakes", "TimeoutWakes"))
 
 
